@@ -267,8 +267,24 @@ def switch_logging_on():
     lg.addHandler(Sink())
 
 
+def render(decoded):
+    from Pyro5 import errors
+
+    def fails():
+        raise ValueError("the request that carried it fails")
+
+    def handles(held):      # (a frame in the middle, with the decoded value as a local variable)
+        fails()
+        return held
+    try:
+        handles(decoded)
+    except ValueError:
+        return errors.format_traceback(detailed=True)
+
+
 def run(ctx):
     switch_logging_on()
+    render([1, "warm-up"])
     import sqlite3
     import struct
     from Pyro5 import core, client, server, serializers, errors
@@ -336,6 +352,16 @@ def run(ctx):
                 finally:
                     ARMED[0] = False
                 if outcome == "value":
+                    # what a daemon with DETAILED_TRACEBACK on does when the request that carried the value fails afterwards: the
+                    # text of every local variable of the failing frames goes into the traceback it sends - looking at what was
+                    # decoded must not do what decoding it must not do
+                    ARMED[0] = True
+                    try:
+                        render(res)
+                    except Exception:
+                        pass
+                    finally:
+                        ARMED[0] = False
                     census(res, built, set(), mods)
                 if Local.created and not registered:
                     built.add("OTHER:harness.Local")
